@@ -724,6 +724,9 @@ func finish(c *Check, tier string, seed int64, st *parentState, wall time.Durati
 	if level == "" {
 		level = "model_checking"
 	}
+	if c.Assume == nil {
+		c.Assume = []string{"the harness process model (journaled worker processes) and the hooks of the verif build tag are trusted"}
+	}
 	ev := map[string]any{
 		"property_id": c.ID, "tier": tier, "seed": seed, "level": level,
 		"coverage": cov, "assumptions": c.Assume, "wall_s": wall.Seconds(), "violations": nviol,
